@@ -64,6 +64,11 @@ def gen_ops(tier, rng):
             for out in sorted({0, 1, L, d * L - 1, d * L, d * L + 1}):
                 ops.append((f"sjoin {d} {p} {L} {out} {d+p} - {rng.randrange(1,1<<30)}", {"cat": "join", "L": L, "B": 1}))
                 ops.append((f"sjoin {d} {p} {L} {out} {d} - {rng.randrange(1,1<<30)}", {"cat": "join", "L": L, "B": 1}))
+        # Join considers the data streams only: a nil or failing reader in a PARITY position changes nothing, one in a data
+        # position is reported; every index, all d+p readers given
+        for i in range(d + p):
+            ops.append((f"sjoin {d} {p} 64 {d * 64 - 1} {d+p} nilr:{i} {rng.randrange(1,1<<30)}", {"cat": "join-nil-any", "L": 64, "B": 1}))
+            ops.append((f"sjoin {d} {p} 64 {d * 64} {d+p} r:{i}:{rng.choice([0, 10, 63])} {rng.randrange(1,1<<30)}", {"cat": "join-readerr-any", "L": 64, "B": 1}))
     return ops
 
 
